@@ -4,8 +4,8 @@ from __future__ import annotations
 
 import re
 
-TBL_ID = {"T1": 1, "T2": 2, "T3": 3, "T4": 4}
-TBL_COLS = {"T1": ["a", "b"], "T2": ["a", "c"], "T3": ["c", "d", "e"], "T4": ["b", "a"]}
+TBL_ID = {"T1": 1, "T2": 2, "T3": 3, "T4": 4, "T5": 5}
+TBL_COLS = {"T1": ["a", "b"], "T2": ["a", "c"], "T3": ["c", "d", "e"], "T4": ["b", "a"], "T5": ["b", "z", "a"]}
 
 
 def _s(x: str) -> str:
